@@ -58,6 +58,10 @@ pub struct StoreCfg {
     pub nomatch_err: bool,
     /// Ref backend only; shipped stores report their own capability
     pub capability: Capability,
+    /// Ref backend: a store that does NOT honour the lookup contract - it looks credentials up by RP only
+    /// and ignores the id list (used where a property quantifies over all stores: C18)
+    #[serde(default)]
+    pub ignore_ids: bool,
 }
 
 #[derive(Serialize, Deserialize, Clone, Debug, PartialEq)]
@@ -119,6 +123,9 @@ pub struct Fault {
     /// fail that call and every later call of the same kind made by this op
     #[serde(default)]
     pub sticky: bool,
+    /// update seam only: the store applies the write and THEN reports the error (a lost acknowledgement)
+    #[serde(default)]
+    pub late: bool,
 }
 
 #[derive(Serialize, Deserialize, Clone, Copy, Debug, PartialEq, Eq, Hash)]
